@@ -30,6 +30,9 @@ namespace PSC {
     public:
         const Token *switchToken = nullptr;
 
+        // unique for the lifetime of the process (addresses of destroyed contexts are reused)
+        const unsigned long id;
+
         const bool isFunctionCtx, isCompositeCtx;
         std::unique_ptr<NodeResult> returnValue;
         const PSC::DataType returnType;
